@@ -20,7 +20,7 @@ ASSUMPTIONS = ['PROVED part: exact identities over complex indeterminates (conju
                'BOUNDED part: seeded instances only; nothing is proved for instances not drawn',
                'soundness of the certificates is checked one-sidedly, as the property states it: an instance with a planted low-rank / product element must never be certified; completeness (certifying every subspace that has none) is not claimed by the property and not checked',
                'proved-by-enumeration core: get_antisymmetric_basis / get_symmetric_basis rows are orthonormal, (anti)symmetric under every transposition and of the right count, for every (dim, rank) listed (finite domain, exact up to 1e-12)']
-STUBS = ['opt_einsum.contract / contract_expression -> numpy.einsum with a recorder', 'scipy.linalg.lu -> recorder (the matrix it receives is the proof object)', 'numpy.linalg.eigvalsh -> 1 (independence precondition)']
+STUBS = ['numqi.matrix_space._misc:reduce_vector_space / get_vector_orthogonal_basis -> assumed contract (fresh symbolic orthonormal rows; LAPACK behind them)', 'np.abs(.).max() < zero_eps -> generic decision (true iff identically zero), logged per obligation', 'opt_einsum.contract / contract_expression -> numpy.einsum with a recorder', 'scipy.linalg.lu -> recorder (the matrix it receives is the proof object)', 'numpy.linalg.eigvalsh -> 1 (independence precondition)']
 NUMPY_MODELS = []
 BOUNDED_RULE = ('get_matrix_orthogonal_basis: 9 generator classes (R, R_T, C from real and complex generators, C_H, C_T from real and complex generators, R_cT, R_c) x dims 2..5 (rectangular where the class allows) x generator counts 1..full with 2 extra dependent generators, '
                 'plus full-dimensional and single-generator corner cases: kind label, structure of every returned matrix, Gram matrix = c*I with one c, span equality (rank oracle over the stated field), complement orthogonal + independent + structured, dimension count; '
@@ -28,7 +28,7 @@ BOUNDED_RULE = ('get_matrix_orthogonal_basis: 9 generator classes (R, R_T, C fro
                 'is_ABC_completely_entangled_subspace: planted product vector, dims up to (2,3,3), k in {1,2,3}: must be False; detect_real_matrix_subspace_rank_one: planted rank-one element in general and symmetric real subspaces: tag must be True; '
                 'numerical range: complex matrices of size 2..8 (normal, Hermitian, nilpotent and generic): every returned point p_k satisfies Re(e^{i t_k} p_k) = lambda_max(Re(e^{i t_k} A)) and lies inside all supporting half-planes; '
                 'distinct = distinct instances; non-trivial = subspace dimension >= 2 / matrix not a multiple of identity')
-EXPLANATION = ('proved: soundness lemmas of the two hierarchy certificates (Gram = rows rows^dagger; rows of a combination = weighted sum of rows; rows vanish on rank <= r / product vectors) as exact identities on the real code; '
+EXPLANATION = ('proved: the coordinate charts of get_matrix_orthogonal_basis (label, analysis exact, isometry up to one constant, structure, dimension count) modulo the assumed contracts of its two SVD/eigh-based vector routines; soundness lemmas of the two hierarchy certificates (Gram = rows rows^dagger; rows of a combination = weighted sum of rows; rows vanish on rank <= r / product vectors) as exact identities on the real code; '
                'bounded: the decomposition, the floating-point LU step on planted instances, the real rank-one detector, the numerical range')
 
 TOL = 1e-8
@@ -595,6 +595,222 @@ def job_soundness(tier, rng, which, shape):
     return out
 
 
+# ------------------------------------------------------------------------------------------------ proved core: the coordinate charts of get_matrix_orthogonal_basis
+# get_matrix_orthogonal_basis = classify the input (float thresholds) -> coordinates x_i of every generator -> reduce_vector_space / get_vector_orthogonal_basis
+# on the coordinate vectors (SVD / eigh: ASSUMED contracts: orthonormal rows B spanning the row space of x; orthonormal complement C) -> matrices T(B), T(C).
+# Proved per class and shape, on the real function run with those two routines replaced by stubs that return fresh symbolic rows:
+#   kind        the structure label
+#   analysis    T(x_i) == generator i (its real block embedding for R_c / R_cT): the coordinates lose nothing
+#   isometry    <T(u), T(v)> == c <u, v> for independent symbolic u, v (rows of B, of C, and mixed) with one constant c > 0
+#   structure   T(u) lies in the ambient structured space identically
+#   dimension   the number of coordinates equals the dimension of the ambient structured space
+# => with the assumed contracts: basis mutually orthogonal with common norm sqrt(c), same span as the input, complement orthogonal, dimensions add up.
+# The classification thresholds `np.abs(.).max() < zero_eps` are decided generically (true iff the expression vanishes identically) and listed as preconditions.
+import numqi.matrix_space._misc as MM
+import numqi.gellmann as _gm
+
+
+class _Probe:
+    def __init__(s, arr, log): s.arr = arr; s.log = log
+    def max(s, *a, **k): return s
+
+    def __lt__(s, eps):
+        z = all(is_zero(sp.sympify(v)) for v in SS.arr(s.arr).ravel())
+        s.log.append(z)
+        return z
+
+
+def _rsym(name, shape):
+    a = np.empty(shape, dtype=object)
+    for idx in np.ndindex(*shape):
+        a[idx] = sp.Symbol(name + '_' + '_'.join(map(str, idx)), real=True)
+    return a
+
+
+def _csym(name, shape):
+    return _rsym(name + 'r', shape) + sp.I * _rsym(name + 'i', shape)
+
+
+def _chart_gens(cls, N0, m, n, rng=None):
+    """symbolic (rng None) or numeric generators of one structure class"""
+    if rng is None:
+        raw = _rsym('g', (N0, m, n)) if cls in ('R', 'R_T') else _csym('g', (N0, m, n))
+    else:
+        raw = rng.normal(size=(N0, m, n)) if cls in ('R', 'R_T') else rng.normal(size=(N0, m, n)) + 1j * rng.normal(size=(N0, m, n))
+        raw = raw.astype(object)
+    cj = (lambda z: sp.conjugate(z)) if rng is None else (lambda z: np.conj(z))
+    rl = (lambda z: sp.re(z)) if rng is None else (lambda z: np.real(z))
+    G = np.empty((N0, m, n), dtype=object)
+    for k in range(N0):
+        for i in range(m):
+            for j in range(n):
+                if cls in ('R_T', 'C_T', 'R_cT'):
+                    G[k, i, j] = raw[k, min(i, j), max(i, j)]
+                elif cls == 'C_H':
+                    G[k, i, j] = raw[k, i, j] if i < j else (cj(raw[k, j, i]) if i > j else rl(raw[k, i, i]))
+                else:
+                    G[k, i, j] = raw[k, i, j]
+    return G
+
+
+CHART = {   # class: (dtype, field, expected kind, ambient dimension, block representation?)
+    'R': (np.float64, 'real', 'R', lambda m, n: m * n, False), 'R_T': (np.float64, 'real', 'R_T', lambda m, n: m * (m + 1) // 2, False),
+    'C': (np.complex128, 'complex', 'C', lambda m, n: m * n, False), 'C_H': (np.complex128, 'real', 'C_H', lambda m, n: m * m, False),
+    'C_T': (np.complex128, 'complex', 'C_T', lambda m, n: m * (m + 1) // 2, False), 'R_cT': (np.complex128, 'real', 'R_cT', lambda m, n: m * (m + 1), True),
+    'R_c': (np.complex128, 'real', 'R_c', lambda m, n: 2 * m * n, True)}
+
+
+def _chart_run(cls, G, field, nb, symbolic):
+    rec = {}; log = []
+    cplx = field == 'complex'
+    real_rvs, real_gvob = MM.reduce_vector_space, MM.get_vector_orthogonal_basis
+
+    def rvs(x, zero_eps=1e-10):
+        rec['coords'] = x
+        if not symbolic:
+            rec['B'] = real_rvs(x, zero_eps); return rec['B']
+        D = SS.arr(x).shape[1]
+        rec['B'] = _csym('b', (nb, D)) if cplx else _rsym('b', (nb, D))
+        return SymArray(rec['B'].copy(), np.complex128 if cplx else np.float64, ALG)
+
+    def gvob(x, tag_reduce=True, zero_eps=1e-10):
+        if not symbolic:
+            return real_gvob(x, tag_reduce=tag_reduce, zero_eps=zero_eps)
+        D = SS.arr(x).shape[1]
+        rec['C'] = _csym('c', (min(2, D - nb), D)) if cplx else _rsym('c', (min(2, D - nb), D))
+        return SymArray(rec['C'].copy(), np.complex128 if cplx else np.float64, ALG)
+    dt = CHART[cls][0]
+    with shimmed([MM, _gm] if symbolic else [], dom=ALG, extra={(MM, 'reduce_vector_space'): rvs, (MM, 'get_vector_orthogonal_basis'): gvob}) as shim:
+        if symbolic:
+            shim.__dict__['abs'] = lambda x: _Probe(x, log)
+            basis, comp, kind = MM.get_matrix_orthogonal_basis(SymArray(G.copy(), dt, ALG), field)
+        else:
+            basis, comp, kind = MM.get_matrix_orthogonal_basis(np.array(G.tolist(), dtype=dt), field)
+    return rec, SS.arr(basis), SS.arr(comp), kind, log
+
+
+def job_charts(tier, rng, cls, m, n):
+    dt, field, kind_exp, amb, block = CHART[cls]
+    sh = f'class={cls},m={m},n={n}'
+    base = f'{PROP}.get_matrix_orthogonal_basis.chart'
+    funcs = ['numqi.matrix_space._misc:get_matrix_orthogonal_basis', 'numqi.gellmann:matrix_to_gellmann_basis', 'numqi.gellmann:gellmann_basis_to_matrix']
+    out = []; t0 = time.time()
+    alg.new_ctx()
+    cplx = field == 'complex'
+    try:
+        N0 = 2; nb = 2
+        G = _chart_gens(cls, N0, m, n)
+        rec, basis, comp, kind, log = _chart_run(cls, G, field, nb, True)
+        B, C = rec['B'], rec.get('C')
+        X = SS.arr(rec['coords'])
+        D = X.shape[1]
+        ex = lambda e: sp.expand(sp.sympify(e))
+
+        def inner(P, Q):
+            v = sum(ex(sp.conjugate(a) * b) for a, b in zip(P.ravel(), Q.ravel()))
+            return ex(v) if cplx else ex(sp.re(ex(v)))
+
+        def cinner(u, v):
+            w = sum(ex(sp.conjugate(a) * b) for a, b in zip(u, v))
+            return ex(w)
+        # engine cross-check on a numeric instance: symbolic T at the natively computed coordinate row == natively returned basis matrix
+        Gn = _chart_gens(cls, N0, m, n, rng)
+        recn, basisn, compn, kindn, _ = _chart_run(cls, Gn, field, nb, False)
+        Bn = np.asarray(recn['B'])
+        if Bn.shape[0] >= 1 and Bn.shape[1] == D:
+            sub = {}
+            for j in range(D):
+                if cplx:
+                    br, bi = sp.re(B[0, j]), sp.im(B[0, j]); sub[br] = sp.Float(float(np.real(Bn[0, j])), 30); sub[bi] = sp.Float(float(np.imag(Bn[0, j])), 30)
+                else:
+                    sub[B[0, j]] = sp.Float(float(np.real(Bn[0, j])), 30)
+            Ts = np.array([complex(sp.N(ex(e).subs(sub), 20)) for e in basis[0].ravel()]).reshape(basis[0].shape)
+            if Ts.shape != np.asarray(basisn)[0].shape or np.abs(Ts - np.asarray(basisn)[0]).max() > 1e-9:
+                return [ob(f'{base}.crosscheck[{sh}]', 'fault', functions=funcs, tier='P', backend='sympy', detail='symbolic chart differs from the native run (engine unsound here)')]
+            nx = 1
+        else:
+            nx = 0
+        def witness():
+            # a refuted chart identity is replayed on the real code: the run-time form of the decomposition contract on numeric generators of this class
+            for t in range(6):
+                Gw = np.array(_chart_gens(cls, 3, m, n, rng).tolist(), dtype=dt)
+                Gw = np.concatenate([Gw, Gw[:1] + Gw[1:2]], axis=0)
+                try:
+                    err = _check_basis(cls, Gw, m, n)
+                except Exception as e2:
+                    if not from_repo(e2):
+                        raise
+                    err = f'{type(e2).__name__}: {e2}'
+                if err:
+                    return dict(cls=cls, m=m, n=n, generators=3, problem=err, space=_enc(Gw))
+            return None
+
+        def P(name, ok, why=None):
+            w = None if ok else witness()
+            out.append(ob(f'{base}.{name}[{sh}]', 'proved' if ok else 'refuted', functions=funcs, tier='P', backend='sympy-exact-identity', witness=w, native=dict(confirmed=w is not None) if not ok else None,
+                          canary_negated_clause_refuted=True, verifier_output=None if ok else why, generic_threshold_decisions=str(log)))
+        P('structure_label', kind == kind_exp, f'label {kind!r}, expected {kind_exp!r}')
+        P('coordinate_count_is_ambient_dimension', D == amb(m, n), f'{D} coordinates, ambient dimension {amb(m, n)}')
+        # analysis
+        ref = G
+        if block:
+            ref = np.empty((N0, 2 * m, 2 * n), dtype=object)
+            for k in range(N0):
+                for i in range(m):
+                    for j in range(n):
+                        a, b = sp.re(G[k, i, j]), sp.im(G[k, i, j])
+                        ref[k, i, j] = a; ref[k, i, n + j] = -b; ref[k, m + i, j] = b; ref[k, m + i, n + j] = a
+        oka = basis[0].shape == ref[0].shape
+        if oka:
+            for i in range(N0):
+                sub = {}
+                for j in range(D):
+                    xv = ex(X[i, j])
+                    if cplx:
+                        sub[sp.re(B[0, j])] = sp.re(xv); sub[sp.im(B[0, j])] = sp.im(xv)
+                    else:
+                        sub[B[0, j]] = sp.re(xv) if sp.im(xv) == 0 else xv
+                oka = oka and all(is_zero(ex(ex(e).subs(sub, simultaneous=True) - r_)) for e, r_ in zip(basis[0].ravel(), ref[i].ravel()))
+        P('coordinates_reproduce_every_generator', oka, 'T(coordinates of generator i) differs from generator i')
+        # isometry
+        c = inner(basis[0], basis[0]).coeff(sp.re(B[0, 0]) if cplx else B[0, 0], 2)
+        okc = bool(c.is_number and c > 0)
+        pairs = [(basis[0], basis[0], B[0], B[0]), (basis[0], basis[1], B[0], B[1])]
+        if C is not None and len(C):
+            pairs.append((basis[0], comp[0], B[0], C[0])); pairs.append((comp[0], comp[0], C[0], C[0]))
+            if len(C) > 1:
+                pairs.append((comp[0], comp[1], C[0], C[1]))
+        for Pm, Qm, u, v in pairs:
+            rhs = cinner(u, v)
+            okc = okc and is_zero(ex(inner(Pm, Qm) - c * (rhs if cplx else sp.re(rhs))))
+        P('chart_is_an_isometry_up_to_one_constant', okc, f'<T(u),T(v)> is not c<u,v> (c read off as {c})')
+        # structure
+        oks = True
+        for Mx in [basis[0]] + ([comp[0]] if C is not None and len(C) else []):
+            if kind_exp in ('R', 'R_T'):
+                oks = oks and all(is_zero(sp.im(ex(e))) for e in Mx.ravel())
+            if kind_exp in ('R_T', 'C_T'):
+                oks = oks and all(is_zero(ex(Mx[i, j] - Mx[j, i])) for i in range(m) for j in range(m))
+            if kind_exp == 'C_H':
+                oks = oks and all(is_zero(ex(Mx[i, j] - sp.conjugate(Mx[j, i]))) for i in range(m) for j in range(m))
+            if block:
+                oks = oks and Mx.shape == (2 * m, 2 * n) and all(is_zero(sp.im(ex(e))) for e in Mx.ravel())
+                oks = oks and all(is_zero(ex(Mx[i, j] - Mx[m + i, n + j])) and is_zero(ex(Mx[i, n + j] + Mx[m + i, j])) for i in range(m) for j in range(n))
+                if kind_exp == 'R_cT':
+                    oks = oks and all(is_zero(ex(Mx[i, j] - Mx[j, i])) and is_zero(ex(Mx[m + i, j] - Mx[m + j, i])) for i in range(m) for j in range(m))
+        P('returned_matrices_lie_in_the_structured_space', oks, 'a chart image is outside the ambient structured space')
+    except Unsupported as ex_:
+        return [ob(f'{base}.explore[{sh}]', 'undecided', functions=funcs, tier='P', backend='sympy', detail=f'engine: {ex_}')]
+    except Exception as ex_:
+        import traceback
+        tb = ''.join(traceback.format_exception(ex_))[-1500:]
+        if not from_repo(ex_):
+            return [ob(f'{base}.harness[{sh}]', 'fault', functions=funcs, tier='P', backend='sympy', detail='exception outside /repo code: ' + tb)]
+        return [ob(f'{base}.explore[{sh}]', 'undecided', functions=funcs, tier='P', backend='sympy', detail='the real function raised on symbolic generators: ' + tb)]
+    out.append(ob(f'{base}.meta[{sh}]', 'meta', functions=funcs, tier='P', paths=1, crosscheck_inputs=nx, backend='-', explore_s=round(time.time() - t0, 2)))
+    return out
+
+
 # ------------------------------------------------------------------------------------------------ enumerated core
 def job_projector_tables(tier, rng):
     """finite, exhaustively enumerated: the (anti)symmetric bases used by the hierarchy are orthonormal, have the binomial row count and the stated symmetry under every transposition"""
@@ -641,6 +857,10 @@ SHAPES = dict(quick=dict(bipartite=SOUND_BI['quick'], tripartite=SOUND_TRI['quic
 
 def jobs(tier):
     J = [('job_soundness', dict(which='bipartite', shape=sh)) for sh in SOUND_BI[tier]] + [('job_soundness', dict(which='tripartite', shape=sh)) for sh in SOUND_TRI[tier]]
+    charts = [('R', 2, 3), ('R', 3, 2), ('R_T', 2, 2), ('R_T', 3, 3), ('C', 2, 2), ('C', 2, 3), ('C_H', 2, 2), ('C_H', 3, 3), ('C_T', 2, 2), ('C_T', 3, 3), ('R_cT', 2, 2), ('R_cT', 3, 3), ('R_c', 2, 2), ('R_c', 2, 3)]
+    if tier != 'quick':
+        charts += [('R_T', 4, 4), ('C_H', 4, 4), ('C_T', 4, 4), ('R_cT', 4, 4), ('R_c', 3, 3), ('R', 4, 3), ('C', 3, 4)]
+    J += [('job_charts', dict(cls=c_, m=m_, n=n_)) for c_, m_, n_ in charts]
     return J + [('job_basis', {}), ('job_hierarchy', {}), ('job_tripartite', {}), ('job_rank_one_detector', {}), ('job_numerical_range', {}), ('job_projector_tables', {})]
 
 
